@@ -443,7 +443,7 @@ fn run(ctx: &mut Ctx) {
             ctx.violation(json!({"state_machine": true}), d);
         }
     }
-    let per_enc = if small { 2 } else { ctx.scaled(t.pick(600, 12_000)) / ctx.nshards as u64 + 1 };
+    let per_enc = if small { 2 } else { ctx.scaled(t.pick(5_000, 50_000)) / ctx.nshards as u64 + 1 };
     'outer: for (ei, e) in encs.iter().enumerate() {
         if encoding_rs::Encoding::for_label(e.name().as_bytes()) != Some(e) {
             ctx.violation(json!({"label": e.name()}), format!("harness error: label {} does not map back to the encoding", e.name()));
